@@ -5,9 +5,10 @@ import unicodedata
 
 from lib import hx, unhx
 
-from props.c08 import NETS, NAMES, GRS, _quiet, show_info, th, text_of, _history, gen_history
+import grsenv  # first (props.c08 does the same): Groestl stand-in hash before pycoin.symbols.* is imported
+from props.c08 import NETS, NAMES, FAMILY, b58c, _quiet, show_info, th, text_of, _history, gen_history
 
-from pycoin.encoding.b58 import b2a_hashed_base58, a2b_hashed_base58, b2a_base58
+from pycoin.encoding.b58 import b2a_base58
 from pycoin.contrib import bech32m
 from pycoin.key.BIP32Node import BIP32Node
 from pycoin.key.BIP49Node import BIP49Node
@@ -21,15 +22,19 @@ MANIFEST = {
             "re-serialises to itself, and a kernel-decided table theorem that on every network two checksummed kinds are separated by "
             "prefix or payload length; model tied to the code by differential correspondence over all entry points x all networks.",
     "note": "Python's int()/str.upper()/str.split() on non-ASCII digits and letters are outside the model (exercised by the totality oracle only). "
-            "Groestlcoin-family Base58 cannot run (groestlcoin_hash absent): those parsers return None for everything.",
+            "The Groestlcoin family (grs, tgrs, grsrt; coins/groestlcoin/parse.py) runs and is modelled under the stand-in of translate/grs_stub.py "
+            "for the absent groestlcoin_hash package: which checksum hash each code path of a network uses is a probed field of the table, and a "
+            "kernel-decided table theorem says every producing closure uses the hash the network's parser accepts.",
     "technique": "Lean 4 proof (generic in codecs and curve) + table decide +kernel + differential correspondence model vs implementation",
 }
-RULE = ("ops c18parse <net> <entry> <text>, c18kinds <net> <text>; valid texts of every kind on every network through every entry point, "
-        "checksummed payloads of lengths 0..80 for every prefix, boundary exponents/coordinates, colon and numeric forms, unicode noise; "
+RULE = ("ops c18parse <net> <entry> <text>, c18made (the same on a text the network's own producer of that kind wrote: must be accepted), c18kinds <net> <text>; valid texts of every kind on every network through every entry point, "
+        "checksummed payloads of lengths 0..80 for every prefix (every network's own checksum hash; the other hash's texts on the Groestlcoin family and on btc/xtn), boundary exponents/coordinates, colon and numeric forms, unicode noise; "
         "distinct = distinct op line; trivial = result None")
 ASSUMPTIONS = ["codecs, curve arithmetic, HMAC-SHA512 and the Electrum stretch enter the theorems as functions (hypotheses: C11 round trips, "
                "to_bytes_32/from_bytes_32 round trip)",
-               "object equality for re-serialisation = same kind, key material, compression flag and BIP32 fields"]
+               "object equality for re-serialisation = same kind, key material, compression flag and BIP32 fields",
+               "the optional groestlcoin_hash package is replaced (also where a real one is installed) by the stand-in of translate/grs_stub.py "
+               "in harness, translator and model; of the real Groestl hash only 'a function from byte strings to 32 bytes' is assumed"]
 
 ENTRIES = ["bip32_seed", "hd_seed", "bip32_prv", "bip32_pub", "bip32", "bip49_prv", "bip49_pub", "bip49", "bip84_prv", "bip84_pub",
            "bip84", "electrum_seed", "electrum_prv", "electrum_pub", "p2pkh", "p2sh", "p2pkh_segwit", "p2sh_segwit", "p2tr", "script",
@@ -37,6 +42,8 @@ ENTRIES = ["bip32_seed", "hd_seed", "bip32_prv", "bip32_pub", "bip32", "bip49_pr
            "public_key", "input", "tx", "spendable", "script_preimage", "call"]
 CHECKSUMMED = ["p2pkh", "p2sh", "p2pkh_segwit", "p2sh_segwit", "p2tr", "wif", "bip32_prv", "bip32_pub", "bip49_prv", "bip49_pub",
                "bip84_prv", "bip84_pub"]
+# entry points that read their text through parse_b58_hashed only (or first)
+B58_ENTRIES = ["p2pkh", "p2sh", "wif", "bip32_prv", "bip32_pub", "bip32", "bip49_prv", "bip49_pub", "bip49", "bip84_prv", "bip84_pub", "bip84"]
 ORDER = NETS["btc"].generator.order()
 P = NETS["btc"].generator.p()
 
@@ -73,7 +80,7 @@ def show_obj(net, o):
 
 def impl(op: str) -> str:
     a = op.split(" ")
-    if a[0] == "c18parse":
+    if a[0] in ("c18parse", "c18made"):
         net = NETS[a[1]]
         r = _quiet(entry_f(net, a[2]), text_of(a[3]))
         if r[0] == "err":
@@ -147,8 +154,6 @@ def reserialise(net, o, entry):
             back = net.parse.sec(text)
         if back is None or desc(back) != desc(o):
             return "as_text() of the parsed key does not parse back to an equal key: %r" % (text,)
-    except ImportError:
-        return None  # Groestl-hashed Base58 cannot be produced here
     except Exception as e:  # noqa: BLE001
         return "re-serialising the parsed object raises %s" % type(e).__name__
     return None
@@ -167,8 +172,6 @@ def same_text(net, o, text, entry):
             return None
         if entry == "wif":
             return None if o.wif() == text else "accepted WIF re-encodes to a different string"
-    except ImportError:
-        return None
     except Exception as e:  # noqa: BLE001
         return "re-encoding raises %s" % type(e).__name__
     return None
@@ -190,9 +193,15 @@ def _oracle(op: str, out: str):
         if len(kinds) > 1:
             return "one checksummed string is accepted as %s" % " and ".join(kinds)
         return None
-    if a[0] == "c18parse" and out != "ok None":
+    if a[0] == "c18made" and out == "ok None":
+        return "a text the network's own %s producer wrote is refused by parse.%s" % (a[2], a[2])
+    if a[0] in ("c18parse", "c18made") and out != "ok None":
         net, entry, text = NETS[a[1]], a[2], text_of(a[3])
         o = entry_f(net, entry)(text)
+        if entry in B58_ENTRIES:
+            kinds = grsenv.kind_of_text(text)
+            if kinds and grsenv.hash_kind(a[1]) not in kinds:
+                return "a Base58Check text under another checksum hash (%s) is accepted by %s" % (",".join(kinds), entry)
         why = reserialise(net, o, entry)
         if why:
             return why
@@ -220,11 +229,8 @@ def _marker_mismatch(v):
     if a[0] != "c18parse" or "re-encodes to a different string" not in v["what"]:
         return False
     net = NETS[a[1]]
-    try:
-        data = a2b_hashed_base58(text_of(a[3]))
-    except Exception:  # noqa: BLE001
-        return False
-    if len(data) != 78:
+    data = grsenv.b58c_dec(grsenv.hash_kind(a[1]), text_of(a[3]))
+    if data is None or len(data) != 78:
         return False
     p = net.parse
     prv = {x for x in (p._bip32_prv_prefix, p._bip49_prv_prefix, p._bip84_prv_prefix) if x}
@@ -277,15 +283,19 @@ def _gen(ctx, emit):
 
     few = ("btc", "xtn", "ltc", "polis", "chc", "dcr", "grs", "bc")
     quick_entries = ["call", "secret", "payable", "public_key"]
-    b58nets = [n for n in NAMES if n not in GRS]
+    b58nets = list(NAMES)
 
     # 1. valid texts of every kind on every network
     seeds = [b"verif-%d" % i for i in range(3)]
     for name in NAMES:
         net = NETS[name]
         texts = []
+        made = []          # (entry point, text the network's own producer of that kind wrote)
         for se, comp in ((1, True), (ORDER - 1, False), (rng.randrange(1, ORDER), True), (rng.randrange(1, ORDER), False)):
             k = net.keys.private(se, is_compressed=comp)
+            r = _quiet(k.wif)
+            if r[0] == "ok" and r[1]:
+                made.append(("wif", r[1]))
             for f in (k.wif, k.as_text, k.sec_as_hex, lambda: "%d" % se, lambda: "%x" % se, lambda: "0x%x" % se,
                       lambda: "%d/%d" % k.public_pair(), lambda: "%d,%d" % k.public_pair(),
                       lambda: "%d/%s" % (k.public_pair()[0], "odd" if k.public_pair()[1] & 1 else "even"),
@@ -305,14 +315,29 @@ def _gen(ctx, emit):
                         r = _quiet(f, blob, prv)
                         if r[0] == "ok":
                             texts.append(r[1])
+                            made.append(("%s_%s" % (kind, "prv" if prv else "pub"), r[1]))
+                            made.append((kind, r[1]))
         h20, h32 = rb(20), rb(32)
         for kind, h in (("p2pkh", h20), ("p2sh", h20), ("p2pkh_wit", h20), ("p2sh_wit", h32), ("p2tr", h32)):
             r = _quiet(getattr(net.address, "for_" + kind), h)
             if r[0] == "ok" and r[1]:
                 texts.append(r[1])
+                made.append(({"p2pkh_wit": "p2pkh_segwit", "p2sh_wit": "p2sh_segwit"}.get(kind, kind), r[1]))
+                made.append(("address", r[1]))
+        for entry, t in made if (ctx.thorough or name in few or name in FAMILY) else rng.sample(made, min(len(made), 8)):
+            emit("c18made %s %s %s" % (name, entry, th(t)))
         for t in texts:
             every(name, t, ENTRIES if name in ("btc", "polis") else ["call", rng.choice(["secret", "payable", "public_key", "wif", "sec", "address", "bip32", rng.choice(CHECKSUMMED)])],
-                  kinds=name in few or rng.random() < 0.3)
+                  kinds=name in few or name in FAMILY or rng.random() < 0.3)
+        # every valid Base58 text of this network re-encoded under the OTHER checksum hash (same payload, same version bytes:
+        # what a network of the other family writes): no checksummed entry point may accept it — on the Groestlcoin family and
+        # on the networks that share its version bytes
+        if name in FAMILY or name in ("btc", "xtn"):
+            other = "sha256d" if name in FAMILY else "groestl"
+            for t in texts:
+                d = grsenv.b58c_dec(grsenv.hash_kind(name), t)
+                if d is not None:
+                    every(name, grsenv.b58c_enc(other, d), ["call", "hierarchical_key", "private_key", "address", rng.choice(B58_ENTRIES)])
 
     # 2. checksummed Base58 with every prefix of the network, payloads of every length 0..80
     quick_lens = [0, 19, 20, 21, 32, 33, 34, 73, 74, 75]
@@ -327,19 +352,19 @@ def _gen(ctx, emit):
                     body[-1] = 1
                 if ln >= 42 and rng.random() < 0.5:
                     body[41] = rng.choice([0, 2, 3])   # the private/public marker byte of an extended key
-                t = b2a_hashed_base58(pfx + bytes(body))
+                t = b58c(name, pfx + bytes(body))
                 every(name, t, (["call"] if rng.random() < 0.3 else []) + ([rng.choice(CHECKSUMMED)] if rng.random() < 0.2 else []))
     # boundary contents: exponents 0, n-1, n, 2^256-1; flag bytes; extended keys with bad key material
     def b32(v):
         return v.to_bytes(32, "big")
-    for name in (("btc", "xtn", "polis", "chc", "dcr", "ltc") if ctx.thorough else ("btc", "polis", "dcr")):
+    for name in (("btc", "xtn", "polis", "chc", "dcr", "ltc", "grs", "tgrs", "grsrt") if ctx.thorough else ("btc", "polis", "dcr", "grs")):
         net = NETS[name]
         p = net.parse
         for se in (0, 1, ORDER - 1, ORDER, ORDER + 1, 2 ** 256 - 1):
             for tail in (b"", b"\x01", b"\x00", b"\x02", b"\xff", b"\x01\x01"):
-                every(name, b2a_hashed_base58(p._wif_prefix + b32(se) + tail), ["wif", "private_key", "secret", "call"])
-        every(name, b2a_hashed_base58(p._wif_prefix + b32(5)[1:]), ["wif", "call"])
-        every(name, b2a_hashed_base58(p._wif_prefix + b"\0" + b32(5)), ["wif", "call"])
+                every(name, b58c(name, p._wif_prefix + b32(se) + tail), ["wif", "private_key", "secret", "call"])
+        every(name, b58c(name, p._wif_prefix + b32(5)[1:]), ["wif", "call"])
+        every(name, b58c(name, p._wif_prefix + b"\0" + b32(5)), ["wif", "call"])
         good = net.keys.bip32_seed(b"boundary").subkey(7)
         head = good.serialize(as_private=True)[:41]
         x_ok = good.public_pair()[0]
@@ -354,9 +379,9 @@ def _gen(ctx, emit):
                             b"\x01" + b32(x_ok), b"\x02" + b32(P), b"\x02" + b32(P + 1), b"\x02" + b32(0), b"\0" + b32(5)[:-1], b"\0" + b32(5) + b"\0",
                             b"\x02" + b32(x_ok)[:-1], b"", b"\0"]
                 for kp in keyparts:
-                    every(name, b2a_hashed_base58(pfx + head + kp), [kind + "_prv", kind + "_pub", kind, "hierarchical_key", "call"])
+                    every(name, b58c(name, pfx + head + kp), [kind + "_prv", kind + "_pub", kind, "hierarchical_key", "call"])
                 for cut in (0, 1, 4, 5, 8, 9, 12, 13, 40, 41, 44):
-                    every(name, b2a_hashed_base58((pfx + head + b"\0" + b32(5))[:cut + len(pfx)]), [kind + "_prv", kind, "call"])
+                    every(name, b58c(name, (pfx + head + b"\0" + b32(5))[:cut + len(pfx)]), [kind + "_prv", kind, "call"])
                 # wrong total length with VALID key material still at the very end: bytes deleted or inserted right after the
                 # version bytes or inside the depth / fingerprint / child-number fields (a decoder that locates the key from
                 # the end, or accepts a blob with or without its 4 version bytes, takes these for keys)
@@ -364,19 +389,19 @@ def _gen(ctx, emit):
                 ents = [kind + ("_prv" if prv else "_pub"), kind, "call"]
                 for drop in (1, 2, 3, 4, 5, 8):
                     for at in (0, 1, 5):
-                        every(name, b2a_hashed_base58(pfx + full[:at] + full[at + drop:]), ents)
+                        every(name, b58c(name, pfx + full[:at] + full[at + drop:]), ents)
                 for add in (1, 2, 4):
-                    every(name, b2a_hashed_base58(pfx + b"\0" * add + full), ents)
-                    every(name, b2a_hashed_base58(pfx + pfx[:add] + full), ents)
+                    every(name, b58c(name, pfx + b"\0" * add + full), ents)
+                    every(name, b58c(name, pfx + pfx[:add] + full), ents)
     # bad checksums / non-alphabet characters / bare Base58
-    for name in ("btc", "polis"):
+    for name in ("btc", "polis", "tgrs"):
         net = NETS[name]
         w = net.keys.private(77).wif()
         for t in (w[:-1] + ("1" if w[-1] != "1" else "2"), w + "1", w[:-1], "0" + w, w.replace(w[5], "l", 1), w + " ", " " + w, w.lower(),
                   b2a_base58(b""), b2a_base58(b"\0"), b2a_base58(b"\x80" + rb(3)), b2a_base58(rb(4)), b2a_base58(rb(5)), "1", "11", "1111"):
             every(name, t, ["wif", "address", "bip32", "call"])
 
-    # 3. Bech32 forms on the networks with an HRP (incl. the Groestlcoin family, whose `address` entry is disabled)
+    # 3. Bech32 forms on the networks with an HRP
     for name in NAMES:
         hrp = NETS[name].parse._bech32_hrp
         if not hrp:
@@ -457,8 +482,6 @@ def oracle(op: str, out: str):
     """the property evaluated on the implementation; on the unchanged tree no step of it raises"""
     try:
         return _oracle(op, out)
-    except ImportError:
-        return None   # Groestl hash library absent
     except Exception as e:  # noqa: BLE001
         return "evaluating the property on the implementation raised %s" % type(e).__name__
 
